@@ -121,7 +121,7 @@ NonArrays == {<<H("a"), Each("v", e, <<H("x")>>, els, 1), H("z")>> :
 
 (* ------------------------------ C04 families ------------------------------ *)
 \* operations over names x, y with values of several types; R(n) prints the name or "-" when it must be invisible
-TVals == {IntL(1), IntL(2), StrL("s"), BoolL(TRUE), ArrL(<<IntL(9)>>), FloatL(1, 1)}
+TVals == {IntL(1), IntL(2), StrL("s"), BoolL(TRUE), ArrL(<<IntL(9)>>), FloatL(1, 1), NilL, ObjL(<<>>)}     \* nil is a type like the others
 Rd(n) == <<H("("), P(Var(n)), H(")")>>
 OpsXY == {<<Assign("x", v, 1)>> : v \in TVals} \cup {<<Assign("y", v, 1)>> : v \in {IntL(5), StrL("t")}}
          \cup {Rd("x"), Rd("y")}
@@ -144,10 +144,11 @@ Skel(kind, a, b, c) ==
     [] kind = "forx" -> a \o <<For(Assign("x", IntL(0), 1), Bin("<", Var("x"), IntL(2)), Post("++", Var("x")),
                                    <<H("[")>> \o b \o <<H("]")>>, NoElse, 1)>> \o c
 Skels == {"flat", "if", "else", "elseif", "each", "for", "eachelse", "forelse", "ifeach", "eachx", "eachxs", "forx"}
-DataSets == {<<>>, <<[n |-> "x", v |-> I(4)]>>, <<[n |-> "x", v |-> S("d")]>>, <<[n |-> "y", v |-> I(6)], [n |-> "x", v |-> B(FALSE)]>>}
+DataSets == {<<>>, <<[n |-> "x", v |-> I(4)]>>, <<[n |-> "x", v |-> S("d")]>>, <<[n |-> "y", v |-> I(6)], [n |-> "x", v |-> B(FALSE)]>>,
+             <<[n |-> "x", v |-> Nil]>>}
 ScopeProgsOf(As, Cs) == {[p |-> Skel(k, a, b \o b2, c \o Rd("x")), d |-> d] :
                  k \in Skels, a \in As, b \in OpsXY, b2 \in {Rd("x"), <<>>}, c \in Cs, d \in DataSets}
-SmallOps == {<<Assign("x", IntL(1), 1)>>, <<Assign("x", StrL("s"), 1)>>, <<Assign("y", IntL(5), 1)>>, <<>>}
+SmallOps == {<<Assign("x", IntL(1), 1)>>, <<Assign("x", StrL("s"), 1)>>, <<Assign("x", NilL, 1)>>, <<Assign("y", IntL(5), 1)>>, <<>>}
 ScopeProgs == ScopeProgsOf(SmallOps, {<<Assign("x", IntL(2), 1)>>, <<Assign("x", BoolL(TRUE), 1)>>, <<>>})
 ScopeProgsAll == ScopeProgsOf(OpsXY \cup {<<>>}, OpsXY \cup {<<>>})
 \* 'loop' can never be assigned or supplied as data; loop-bound names vanish after the construct
@@ -183,7 +184,12 @@ LoopProgs == {[p |-> <<Assign("loop", IntL(1), 1)>>, d |-> <<>>],
              \cup {[p |-> <<H("x"), P(Var("a"))>>, d |-> <<[n |-> "a", v |-> I(1)], [n |-> "loop", v |-> v]>>] : v \in LoopDataVals}
 
 \* empty bodies: a branch, an @else or a loop body may be empty (C02: "nothing otherwise")
-EmptyBodies == {<<H("a"), If(<<Br(c1, b1)>>, e, 1), H("z")>> : c1 \in {BoolL(TRUE), BoolL(FALSE)}, b1 \in {<<>>, <<H("[1]")>>}, e \in {NoElse, <<>>, <<H("[e]")>>}}
+ParenText == {<<H("a"), If(<<Br(c1, <<H("(1)")>>), Br(c2, <<H("(2)")>>)>>, e, 1), H("(z)")>> :
+                c1 \in {BoolL(TRUE), BoolL(FALSE)}, c2 \in {BoolL(TRUE), BoolL(FALSE)}, e \in {NoElse, <<H("(e)")>>, <<H("( e")>>}}
+             \cup {<<Each("v", a, <<H("(b)"), Continue(1), H("(never)")>>, <<H("(e)")>>, 1), H("(z)")>> : a \in {ArrL(<<>>), ArrL(<<IntL(1)>>)}}
+             \cup {<<Each("v", ArrL(<<IntL(1), IntL(2)>>), <<P(V), Break(1), H("(never)")>>, NoElse, 1), H("(z)")>>}
+EmptyBodies == ParenText \cup
+               {<<H("a"), If(<<Br(c1, b1)>>, e, 1), H("z")>> : c1 \in {BoolL(TRUE), BoolL(FALSE)}, b1 \in {<<>>, <<H("[1]")>>}, e \in {NoElse, <<>>, <<H("[e]")>>}}
           \cup {<<H("a"), If(<<Br(c1, b1), Br(c2, b2)>>, e, 1), H("z")>> : c1 \in {BoolL(TRUE), BoolL(FALSE)}, c2 \in {BoolL(TRUE), BoolL(FALSE)},
                                                                        b1 \in {<<>>, <<H("[1]")>>}, b2 \in {<<>>, <<H("[2]")>>}, e \in {NoElse, <<>>, <<H("[e]")>>}}
           \cup {<<H("a"), Each("v", a, b, e, 1), H("z")>> : a \in {ArrL(<<>>), ArrL(<<IntL(1), IntL(2)>>)}, b \in {<<>>, <<P(V)>>}, e \in {NoElse, <<>>, <<H("[e]")>>}}
